@@ -196,6 +196,18 @@ ATTR_VARIANTS = [
     ('tkf NMTOKENS #FIXED "F1 F2"', "tkf", "tfixed"),
     ('tk1 NMTOKENS "one"', "tk1", "tdefault1"),
     ('ref IDREF #IMPLIED', "ref", "imp"),
+    # edge values of a declared default / #FIXED value (EDGE: name -> declared value, a value a document may give):
+    # the empty string, a blank, falsy-looking text, markup characters, both kinds of quotes, a keyword-like word
+    ('em CDATA ""', "em", "xdefault"),
+    ('emf CDATA #FIXED ""', "emf", "xfixed"),
+    ('sp CDATA " "', "sp", "xdefault"),
+    ('zero CDATA "0"', "zero", "xdefault"),
+    ('fls CDATA #FIXED "false"', "fls", "xfixed"),
+    ('amp CDATA "a&amp;b &lt;c&gt;"', "amp", "xdefault"),
+    ("qt CDATA 'say \"hi\"'", "qt", "xdefault"),
+    ('apo CDATA "it\'s"', "apo", "xdefault"),
+    ('non CDATA "None"', "non", "xdefault"),
+    ('emt NMTOKEN "0"', "emt", "xdefault"),
     # enumerations whose values collide after slugging; the default / fixed value is a member that gets renamed
     ('st (on|ON|off) "ON"', "st", "enumx"),
     ('pt (x-1|x1) "x1"', "pt", "enumx"),
@@ -205,6 +217,8 @@ ATTR_VARIANTS = [
     ('kw (True|true|None) #FIXED "true"', "kw", "enumx"),
 ]
 # name -> (a value a document may give, or None for #FIXED; the value of an absent attribute)
+EDGE = {"em": ("", "x"), "emf": ("", None), "sp": (" ", ""), "zero": ("0", ""), "fls": ("false", None), "amp": ("a&b <c>", "&"),
+        "qt": ('say "hi"', "'"), "apo": ("it's", "it's"), "non": ("None", "none"), "emt": ("0", "00")}
 ENUMX = {"st": ("off", "ON"), "pt": ("x-1", "x1"), "dot": (None, "a_b"), "cs": ("A", "a"), "num": ("2", "10"), "kw": (None, "true")}
 
 
@@ -258,7 +272,9 @@ def _oracle_docs_failures(a):
                         given[name] = {"imp": "i1", "default": "other", "enum": "y", "tokens": "t1 t2", "tdefault": "o1 o2 o3", "tdefault1": "p q"}[kind]
                     elif kind == "enumx" and ENUMX[name][0] is not None and ((len(name) + len(w)) % 2):
                         given[name] = ENUMX[name][0]
-                at = "".join(f' {k}="{v}"' for k, v in given.items())
+                    elif kind == "xdefault" and EDGE[name][1] is not None and ((len(name) + len(w)) % 2):
+                        given[name] = EDGE[name][1]
+                at = "".join(f' {k}="{G._xml_attr(v)}"' for k, v in given.items())
                 if ns:
                     lastp = ns["decls"][-1]
                     at += "".join(f' xmlns:{p}="urn:{p}"' for p in ns["decls"]) + f' {lastp}:title="T{len(w)}"'
@@ -309,6 +325,8 @@ def _oracle_docs_failures(a):
                         exp_attrs[name] = "D"
                     elif kind == "tfixed":
                         exp_attrs[name] = "F1 F2"
+                    elif kind == "xfixed" or (kind == "xdefault" and name not in given):
+                        exp_attrs[name] = EDGE[name][0]
                     elif kind == "tdefault" and name not in given:
                         exp_attrs[name] = "D1 D2"
                     elif kind == "tdefault1" and name not in given:
@@ -488,6 +506,25 @@ def model_bounds(c):
     return _MODEL_BOUNDS[dtd]
 
 
+def amp_default_only(msg):
+    """the failure is exactly the one of finding C16-ampersand-in-default-kept-escaped: the attributes after the round
+    trip differ from the prescribed ones only in defaulted values, where every `&` came back as `&#38;`"""
+    import ast
+    import re
+
+    m = re.search(r": attributes after the round trip (\{.*\}), the DTD prescribes (\{.*\})\s*$", msg, re.S)
+    if not m:
+        return False
+    try:
+        got, exp = ast.literal_eval(m.group(1)), ast.literal_eval(m.group(2))
+    except (ValueError, SyntaxError):
+        return False
+    if set(got) != set(exp):
+        return False
+    diff = [k for k in exp if got[k] != exp[k]]
+    return bool(diff) and all("&" in exp[k] and got[k] == exp[k].replace("&", "&#38;") for k in diff)
+
+
 def covered_docs(a, msg):
     """a failure belongs to a listed finding only if it is the failure the finding describes:
     C16-any-drops-text         the re-serialised document lacks exactly the character data after a child inside an ANY element;
@@ -503,6 +540,8 @@ def covered_docs(a, msg):
     c = a["content"]
     if any_text_after_child(a, msg):
         return "C16-any-drops-text"
+    if amp_default_only(msg):
+        return "C16-ampersand-in-default-kept-escaped"
     names = G.dtd_names(c)
     dups = {n for n in names if names.count(n) > 1}
     if not dups:
@@ -569,6 +608,8 @@ def compare_e2e(m, i, a):
     names = G.dtd_names(a["content"])
     if "any" in (a.get("kinds") or {}).values() and i == ok("finding:C16-any-drops-text"):
         return True
+    if any("&" in EDGE.get(ATTR_VARIANTS[j][1], ("",))[0] for j in a.get("attrs", [])) and i == ok("finding:C16-ampersand-in-default-kept-escaped"):
+        return True  # only with an ATTLIST default that contains an ampersand, and only when the predicate recognised the failure
     return len(set(names)) != len(names) and i == ok("finding:C16-duplicate-name-sites")
 
 
@@ -616,9 +657,14 @@ def gen_e2e(rng, tier):
 
 
 # ------------------------------------------------------------------ attribute declarations (Gen/DtdAttrs.lean)
+EDGE_DEFAULTS = ["", " ", "0", "false", "None", "it's", "  x "]  # (no tab / newline: attribute-value normalisation of the DTD text itself)
+
+
 def gen_dtd_attr(rng, tier):
     kinds = ["required", "implied", "fixed", "none"]
     yield {"decls": [{"default": k, "value": v, "type": "CDATA"} for k in kinds for v in (None, "D")]}
+    for v in EDGE_DEFAULTS:  # edge values of the declared default (the empty string is a default, not "no default")
+        yield {"decls": [{"default": k, "value": v, "type": "CDATA"} for k in kinds]}
     for _ in range(n_cases(tier, 100, 2000)):
         yield {"decls": [G.gen_dtd_attr_decl(rng, grammatical=False) for _ in range(rng.randint(1, 6))]}
 
@@ -635,6 +681,10 @@ def gen_dtd_attr_fields(rng, tier):
     for tp in ("CDATA", "NMTOKEN", "enum") + G.DTD_LIST_TYPES:
         for dv in (("x",) if tp not in G.DTD_LIST_TYPES else ("x", "t1 t2")):
             yield {"decls": [{"default": k, "value": (dv if k in ("fixed", "none") else None), "type": tp} for k in kinds]}
+    for v in EDGE_DEFAULTS:
+        yield {"decls": [{"default": k, "value": v, "type": "CDATA"} for k in ("fixed", "none")]}
+    for v in ("0", "00", "-"):  # NMTOKEN / NMTOKENS defaults that look falsy
+        yield {"decls": [{"default": k, "value": v, "type": tp} for k in ("fixed", "none") for tp in ("NMTOKEN", "NMTOKENS")]}
     for _ in range(n_cases(tier, 60, 800)):
         yield {"decls": [G.gen_dtd_attr_decl(rng) for _ in range(rng.randint(1, 6))]}
 
@@ -754,6 +804,11 @@ def gen_dtd_read_attr(rng, tier):
             for dv in ("t1 t2", "x"):
                 v = dv if k in ("fixed", "none") else None
                 yield {"decl": {"default": k, "value": v, "type": tp}, "givens": [None, "y z", dv, "y"]}
+    for v in EDGE_DEFAULTS:  # CDATA: the declared text is the default as it stands; another given value replaces it
+        for k in ("fixed", "none"):
+            # (#FIXED: ParserUtils.validate_fixed_value compares strings after strip(); readAttr compares them as they are, so no
+            # given value that differs from the fixed one by surrounding blanks only — such a document is not DTD-valid anyway)
+            yield {"decl": {"default": k, "value": v, "type": "CDATA"}, "givens": [None, "y", v] + ([""] if k == "none" or v.strip() else [])}
     for _ in range(n_cases(tier, 15, 300)):
         d = G.gen_dtd_attr_decl(rng)
         pool = d.get("values") or ["v1", "D", "x"]
@@ -822,7 +877,16 @@ def finding_any_text():
         g.close()
 
 
+def finding_amp_default():
+    """<!ATTLIST r amp CDATA "a&amp;b">: <r/> comes back as <r amp="a&amp;#38;b"/>"""
+    a = {"content": {"k": "seq", "o": "once", "c": [{"n": "a", "o": "opt"}]}, "words": [[], ["a"]],
+         "attrs": [i for i, v in enumerate(ATTR_VARIANTS) if v[1] == "amp"], "ns": None}
+    msgs = list(_oracle_docs_failures(a))
+    return (bool(msgs) and all(covered_docs(a, m) == "C16-ampersand-in-default-kept-escaped" for m in msgs), msgs[0] if msgs else "the default comes back unescaped now")
+
+
 FINDINGS = {
+    "C16-ampersand-in-default-kept-escaped": finding_amp_default,
     "C16-any-drops-text": finding_any_text,
     "C16-duplicate-name-sites": finding_dup,
 }
